@@ -7,6 +7,7 @@ Only the property text and the worktree path go into the prompt - nothing about 
 import json, sys
 
 pid, wt = sys.argv[1], sys.argv[2]
+EXTRA = sys.argv[3] if len(sys.argv) > 3 else ''  # optional property-independent steering for later batches
 prop = None
 for line in open('/verif/properties.jsonl'):
     p = json.loads(line)
@@ -31,6 +32,7 @@ look fine alone - NOT something ordinary use would expose at once.  Make them sm
 plausible as mistakes a maintainer could make (refactoring slip, off-by-one at a boundary, wrong comparison
 operator, forgotten case, stale cached value, wrong order of two steps...).  The two changes should be at
 different sites / exercise different mechanisms of the property.
+{EXTRA}
 
 For each change k in (1, 2) write:
   {wt}/out/k/patch.diff  - `git diff` against HEAD (must apply with `git apply` from the worktree root)
